@@ -69,6 +69,20 @@ from fortls.version import __version__
 TYPE_DEF_REGEX = re.compile(r"[ ]*(TYPE|CLASS)[ ]*\([a-z0-9_ ]*$", re.I)
 
 
+def interface_members(obj) -> list:
+    """Members of a generic interface, also when it is reached through a binding
+    or an associate name that is linked to it (their type is that of the target)"""
+    seen = []
+    while (
+        obj is not None
+        and not hasattr(obj, "mems")
+        and not any(obj is i for i in seen)
+    ):
+        seen.append(obj)
+        obj = getattr(obj, "link_obj", None)
+    return getattr(obj, "mems", [])
+
+
 def nesting_depth(def_obj) -> int:
     """Depth of the scope an object belongs to, as the number of ``:`` in its
     qualified name. A procedure declared in an interface block is an entity of
@@ -705,7 +719,7 @@ class LangServer:
                 tmp_list = []
                 if name_replace is None:
                     name_replace = candidate.name
-                for member in candidate.mems:
+                for member in interface_members(candidate):
                     tmp_text, _ = member.get_snippet(name_replace)
                     if tmp_list.count(tmp_text) > 0:
                         continue
@@ -1153,7 +1167,7 @@ class LangServer:
                 )
             )
         elif var_type == INTERFACE_TYPE_ID:
-            for member in var_obj.mems:
+            for member in interface_members(var_obj):
                 hover_str, docs = member.get_hover(long=True)
                 if hover_str is not None:
                     hover_array.append(create_hover(hover_str, docs))
